@@ -139,13 +139,15 @@ func init() {
 	reg(&PropSpec{
 		ID: "C18",
 		Harnesses: func(tier string) []HarnessSpec {
-			return []HarnessSpec{{Name: "snapshots", Pkg: "cluster", Func: "ZZ_C18_Snapshots", Params: pm("U", tierSel(tier, 3, 4), "N", tierSel(tier, 3, 4), "MOVE", 1),
-				Witnesses: []string{"duplicate-entry", "leave", "member-listed-under-another-host"}, Deadline: 30 * time.Minute}}
+			return []HarnessSpec{{Name: "snapshots", Pkg: "cluster", Func: "ZZ_C18_Snapshots", Params: pm("U", tierSel(tier, 3, 4), "N", tierSel(tier, 3, 4), "MOVE", 1, "ROT", tierSel(tier, 1, 0)),
+				Witnesses: []string{"duplicate-entry", "leave", "member-listed-under-another-host"}, Deadline: 30 * time.Minute, ReplayAttempts: 24},
+				{Name: "snapshots-under-every-rotation-of-map-order", Pkg: "cluster", Func: "ZZ_C18_Snapshots", Params: pm("U", 4, "N", tierSel(tier, 2, 3), "MOVE", 1, "ROT", 1),
+					Witnesses: []string{"leave"}, Deadline: 60 * time.Minute, ReplayAttempts: 24}}
 		},
 		Bounds: func(tier string) string {
 			return fmt.Sprintf("sequences of %d snapshots over a universe of %d members with fixed kind sets; membership of each member in each snapshot and a duplicate entry are symbolic booleans; every snapshot contains the observing node", tierSel(tier, 3, 4), tierSel(tier, 4, 5)-1)
 		},
-		Outside:     []string{"members that change their kinds between snapshots while keeping their ID (a change of host under the same ID is included: symbolic per entry)", "the Request/Result plumbing around Members()/HasKind() (the agent is sent the same getMembers/getKinds messages and its answers are checked, next to its state)", "longer sequences / larger universes", "map iteration order: one order explored"},
+		Outside:     []string{"members that change their kinds between snapshots while keeping their ID (a change of host under the same ID is included: symbolic per entry)", "the Request/Result plumbing around Members()/HasKind() (the agent is sent the same getMembers/getKinds messages and its answers are checked, next to its state)", "longer sequences / larger universes", "map iteration order: insertion order, and for the last snapshot of a history every rotation of it (the orders Go produces for a small map); other permutations are not explored"},
 		Assumptions: seqAssume("Agent built by NewAgent on a Cluster value whose engine is a bare engine with a synchronous event sink; snapshots are delivered by calling Agent.Receive"),
 	})
 	reg(&PropSpec{
@@ -288,16 +290,23 @@ func init() {
 	reg(&PropSpec{
 		ID: "C11",
 		Harnesses: func(tier string) []HarnessSpec {
-			return []HarnessSpec{{Name: "request-response", Pkg: "actor", Func: "ZZ_C11", Preempt: tierSel(tier, 1, 2), Params: pm("R", 2),
-				Witnesses: []string{"replied", "timed-out", "late-reply", "reply-before-Result-entered", "follow-up-replied"}, Deadline: 60 * time.Minute},
+			hs := []HarnessSpec{{Name: "request-response", Pkg: "actor", Func: "ZZ_C11", Preempt: tierSel(tier, 1, 2), Params: pm("R", 2, "SLEEP", 0),
+				Witnesses: []string{"replied", "timed-out", "reply-before-Result-entered", "follow-up-replied"}, Deadline: 60 * time.Minute},
+				{Name: "dawdling-requester-and-replier", Pkg: "actor", Func: "ZZ_C11", Preempt: 2, Params: pm("R", 1, "SLEEP", 3),
+					Witnesses: []string{"replied", "timed-out", "late-reply", "requester-dawdles-past-the-timeout-before-Result", "reply-collected-after-the-timeout-had-passed-since-Request"}, Deadline: 60 * time.Minute},
 				{Name: "concurrent-requests", Pkg: "actor", Func: "ZZ_C11_Conc", Preempt: 2, Params: pm("R", tierSel(tier, 2, 3)),
 					Witnesses: []string{"concurrent-request-replied"}, TrustRace: true, Deadline: 60 * time.Minute}}
+			if tier == "thorough" {
+				hs = append(hs, HarnessSpec{Name: "two-requests-dawdling", Pkg: "actor", Func: "ZZ_C11", Preempt: 1, Params: pm("R", 2, "SLEEP", 3),
+					Witnesses: []string{"late-reply", "reply-collected-after-the-timeout-had-passed-since-Request"}, Deadline: 90 * time.Minute})
+			}
+			return hs
 		},
 		Bounds: func(tier string) string {
-			return fmt.Sprintf("2 concurrent requests to one responder; each is replied to 0, 1 or 2 times by a replier goroutine; the timeout timer of each Result may fire at any scheduling point (reply delay on either side of the timeout is a scheduling choice); response ids drawn from math/rand are symbolic (any value in range); preemption bound %d", tierSel(tier, 1, 2))
+			return fmt.Sprintf("2 concurrent requests to one responder; each is replied to 0, 1 or 2 times by a replier goroutine; time model: a timeout timer is runnable only once the harness clock has reached its deadline, and the clock moves when a requester dawdles (2 x timeout) between Request and Result, when the replier dawdles before a reply, or to the earliest pending deadline when every goroutine is blocked (second harness: 1 request, both kinds of dawdling, preemption bound 2; thorough adds 2 requests with dawdling); response ids drawn from math/rand are symbolic (any value in range); preemption bound %d", tierSel(tier, 1, 2))
 		},
 		Outside:     []string{"more than 2 requests / 2 replies in the history harness (requests issued one after the other, then a follow-up request); the concurrent harness issues its requests from goroutines (distinct registered response PIDs, race detector on the engine's bookkeeping, each reply reaches its requester)", "a second reply that arrives before Result returned (buffered and dropped, not covered by the statement)", "requests through Context.Request (same Engine.Request path)"},
-		Assumptions: thrAssume("bare engine, recording responder, Response/Registry real; context.WithTimeout modelled by a timer goroutine that cancels whenever scheduled"),
+		Assumptions: thrAssume("bare engine, recording responder, Response/Registry real; context.WithTimeout/WithDeadline modelled by a timer goroutine that cancels once the harness clock has reached the deadline"),
 	})
 
 	reg(&PropSpec{
